@@ -86,8 +86,18 @@ def _resolve(expr, aliases, ren):
     return (f, int(m.group(2) or 0))
 
 
+HAND_RULED = ["Call", "CallCached", "CallGlobal", "CallGlobalMono", "CallUpval", "CallGlobalNative",
+              "Return", "Return0", "TailCallUpval"]     # Model/CallLive.v node_of writes their rule out
+
+
 def analyse():
     table = {}
+    from extractors.c04 import parse_opcodes
+    nums = dict(parse_opcodes()[0])
+    absent = [n for n in HAND_RULED if n not in nums]
+    if absent:
+        raise ExtractError(f"opcode.rs: no opcode named {absent} (Model/CallLive.v has a hand rule for it)")
+    hand = {nums[n] for n in HAND_RULED}
     files = sorted(glob.glob(os.path.join(extract.REPO, OPS, "*.inc")))
     if not files:
         raise ExtractError(f"no dispatch files under {OPS}")
@@ -131,9 +141,18 @@ def analyse():
             raw = bool(re.search(r"regs_ptr|self\.registers|registers\[", b))
             # ip = (ip as isize + imm as isize) as usize;  at brace depth 0 of the arm = always taken
             jump = "JNone"
-            for m in re.finditer(r"\bip = \(ip as isize \+ \w+ as isize\) as usize;", b):
-                depth = b[:m.start()].count("{") - b[:m.start()].count("}")
-                jump = "JAlways" if depth == 0 and jump == "JNone" else "JCond"
+            REL = r"\(ip as isize \+ \w+ as isize\) as usize"
+            # names bound to the relative target: `let target = (ip as isize + imm as isize) as usize;`
+            targets = set(m.group(1) for m in re.finditer(r"let (\w+)(?:\s*:\s*usize)? = " + REL + r";", b))
+            for m in re.finditer(r"(?<![\w.])ip\s*([-+*]?=)(?!=)\s*([^;]*);", b):
+                rhs = re.sub(r"\s+", " ", m.group(2).strip())
+                if m.group(1) == "=" and (re.fullmatch(REL, rhs) or rhs in targets):
+                    depth = b[:m.start()].count("{") - b[:m.start()].count("}")
+                    jump = "JAlways" if depth == 0 and jump == "JNone" else "JCond"
+                elif not any(x in hand for x in bs):
+                    # an arm that moves ip in a way this translator does not understand would get
+                    # wrong successors in the flow graph (and the analysis a path that does not exist)
+                    raise ExtractError(f"{os.path.basename(path)}: arm {bs} moves ip in an unrecognised way: `ip {m.group(1)} {rhs}`")
             for x in bs:
                 table[x] = dict(file=os.path.basename(path), gets=sorted(gets), sets=sorted(sets),
                                 unresolved_write=bad_set or raw, unresolved_read=bad_get or raw, jump=jump)
